@@ -73,6 +73,9 @@ let parse_op (t : string array) : op option =
   | "writeall" -> Some (OWriteAll (reg 1, bytes_of_hex t.(2)))
   | "iocopy" -> Some (OIoCopy (reg 1, bytes_of_hex t.(2)))
   | "hwrite" -> Some (OHWrite (reg 1, bytes_of_hex t.(2)))
+  (* core::hash::Hasher::write_<int>(v): std's provided methods are  self.write(&v.to_ne_bytes());  the script carries
+     the little-endian bytes of v and is only generated for little-endian targets *)
+  | "hwint" -> Some (OHWrite (reg 1, bytes_of_hex t.(3)))
   | "flush" -> Some (OFlush (reg 1))
   | "finish" -> Some (OFinish (reg 1))
   | "ckpt" -> Some (OCkpt (reg 1))
